@@ -218,6 +218,8 @@ def execute(sc):
                         f"replay of flow {i} started at t={t()} while the replay of flow {prev} had fired neither its "
                         f"response nor its error hook")
             M["active_done"] = False
+            # the previous replay has cleaned up: SimNet holds no connection of an earlier replay any more
+            check_exclusive(i, "start")
             if i not in M["queue"]:
                 violate("replayed_unqueued", {"kind": specs[i]["kind"] if i is not None else "?"},
                         f"flow {i} ({specs[i]['kind'] if i is not None else '?'}) was replayed although the reference "
